@@ -19,6 +19,10 @@ OPT_NOTE = ("optimiser model (coq/model/Optimiser.v) replayed bit-for-bit agains
             "MCOptimiser::optimise_state on scripted and real states")
 
 PROPS = {
+    "C16": dict(props_file="props/C16.v", needs_gen=True, engines=[("tables", dict(groups=True))],
+                design="DESIGN.md section 4 C16",
+                trusted=["bin/gen.py + `vharness dump`: regeneration of coq/gen/GenTables.v from the running code",
+                         "model/Spec.v: the International Tables entries as typed in"]),
     "C05": dict(props_file="props/C05.v", engines=[("opt", dict(focus="C05", quick=250, thorough=6000))],
                 design="DESIGN.md section 4 C05",
                 assumptions=["libm: exp(-inf) = 0 (premise of the binary64 theorems; tested by the harness on every run)",
@@ -199,6 +203,114 @@ def opt_engine(prop, conf, params, tier, seed, broken_gate):
 ENGINES = {"opt": opt_engine}
 
 
+
+# ------------------------------------------------------------------------------------------
+# tables engine (C16, C10 labels): the same facts the vm_compute theorems decide, evaluated per
+# group on the dumped data, so that a broken theorem comes with the table entry that breaks it.
+
+from fractions import Fraction
+import struct
+
+H = Fraction(1, 2)
+ITA = {  # International Tables A, plane groups 1,2,3,4,6,7,8: general positions (typed independently)
+    "p1": ("Monoclinic", [((1, 0, 0, 1), (0, 0))]),
+    "p2": ("Monoclinic", [((1, 0, 0, 1), (0, 0)), ((-1, 0, 0, -1), (0, 0))]),
+    "p1m1": ("Orthorhombic", [((1, 0, 0, 1), (0, 0)), ((-1, 0, 0, 1), (0, 0))]),
+    "p1g1": ("Orthorhombic", [((1, 0, 0, 1), (0, 0)), ((-1, 0, 0, 1), (0, H))]),
+    "p2mm": ("Orthorhombic", [((1, 0, 0, 1), (0, 0)), ((-1, 0, 0, -1), (0, 0)), ((-1, 0, 0, 1), (0, 0)), ((1, 0, 0, -1), (0, 0))]),
+    "p2mg": ("Orthorhombic", [((1, 0, 0, 1), (0, 0)), ((-1, 0, 0, -1), (0, 0)), ((-1, 0, 0, 1), (H, 0)), ((1, 0, 0, -1), (H, 0))]),
+    "p2gg": ("Orthorhombic", [((1, 0, 0, 1), (0, 0)), ((-1, 0, 0, -1), (0, 0)), ((-1, 0, 0, 1), (H, H)), ((1, 0, 0, -1), (H, H))]),
+}
+
+
+def _fr(h):
+    return Fraction(struct.unpack(">d", bytes.fromhex(h))[0])
+
+
+def _op(m):
+    v = [_fr(h) for h in m]
+    return ((v[0], v[1], v[3], v[4]), (v[2], v[5])), (v[6], v[7], v[8])
+
+
+def _comp(a, b):
+    (a0, a1, a2, a3), (s0, s1) = a
+    (b0, b1, b2, b3), (u0, u1) = b
+    return ((a0 * b0 + a1 * b2, a0 * b1 + a1 * b3, a2 * b0 + a3 * b2, a2 * b1 + a3 * b3),
+            (a0 * u0 + a1 * u1 + s0, a2 * u0 + a3 * u1 + s1))
+
+
+def _eqmod(a, b):
+    return a[0] == b[0] and all((x - y).denominator == 1 for x, y in zip(a[1], b[1]))
+
+
+def tables_engine(prop, conf, params, tier, seed, broken_gate):
+    d = json.load(open(os.path.join(CACHE, "dump.json")))
+    findings, samples, evals, nontriv = [], [], 0, set()
+    want_labels = params.get("labels", False)
+    want_groups = params.get("groups", True)
+    names = [g["cli"] for g in d["groups"]]
+    if want_groups and names != list(ITA):
+        findings.append(dict(engine="tables", properties=["C16"], case="tables groups=%s" % ",".join(names),
+                             what="the supported groups are %s, expected %s" % (names, list(ITA))))
+    for g in d["groups"]:
+        cli = g["cli"]
+        case = "tables group=%s" % cli
+        evals += 1
+        samples.append("%s name=%s family=%s ops=%s" % (case, g["name"], g["family"], g["ops_str"]))
+        if want_labels and g["name"] != cli:
+            findings.append(dict(engine="tables", properties=["C10"], case=case,
+                                 what="the group requested as %s is labelled %s in the written structure" % (cli, g["name"])))
+        if not want_groups or cli not in ITA:
+            continue
+        fam, spec = ITA[cli]
+        if g["family"] != fam:
+            findings.append(dict(engine="tables", properties=["C16", "C04"], case=case,
+                                 what="group %s is paired with family %s, its operations leave %s cells invariant" % (cli, g["family"], fam)))
+        if g.get("ops_error"):
+            findings.append(dict(engine="tables", properties=["C16"], case=case, what="operations do not parse: %s" % g["ops_error"]))
+            continue
+        ops = []
+        for k, m in enumerate(g["ops"]):
+            o, bottom = _op(m)
+            ops.append(o)
+            evals += 1
+            nontriv.add((cli, k))
+            if any(x != 0 for x in bottom):
+                findings.append(dict(engine="tables", properties=["C16"], case=case + " op=%d" % k,
+                                     what="operation %d (%s) has a non-zero bottom row %s" % (k, g["ops_str"][k], bottom)))
+        if len(ops) != len(spec):
+            findings.append(dict(engine="tables", properties=["C16"], case=case,
+                                 what="%d operations, the plane group has order %d" % (len(ops), len(spec))))
+        for k, (o, s) in enumerate(zip(ops, spec)):
+            s = (tuple(Fraction(x) for x in s[0]), tuple(Fraction(x) for x in s[1]))
+            if o != s:
+                findings.append(dict(engine="tables", properties=["C16"], case=case + " op=%d" % k,
+                                     what="operation %d is %s = %s, International Tables give %s" % (
+                                         k, g["ops_str"][k], [[str(x) for x in o[0]], [str(x) for x in o[1]]],
+                                         [[str(x) for x in s[0]], [str(x) for x in s[1]]])))
+        # group axioms modulo Z^2 on the code's own operations
+        for i, a in enumerate(ops):
+            for j, b in enumerate(ops):
+                evals += 1
+                c = _comp(a, b)
+                if not any(_eqmod(c, x) for x in ops):
+                    findings.append(dict(engine="tables", properties=["C16"], case=case + " ops=%d,%d" % (i, j),
+                                         what="the composition of operations %d and %d is not in the table (modulo lattice translations)" % (i, j)))
+    return dict(
+        evaluations=evals, distinct_nontrivial=len(nontriv),
+        rule="every group the code supports (WallpaperGroups::variants()), every operation WyckoffSite::new parses, every "
+             "ordered pair of operations; compared with the International Tables entries typed into bin/engines.py "
+             "(and, in Coq, into model/Spec.v); non-trivial = distinct (group, operation); the domain is finite and "
+             "enumerated completely",
+        samples=samples[:7], findings=[f for f in findings if prop in f["properties"]], mismatches=[],
+        distribution=dict(groups=len(d["groups"]), operations=len(nontriv)),
+        correspondence=dict(engine="tables", strength="regeneration: coq/gen/GenTables.v is rewritten from `vharness dump` and the vm_compute theorems are re-checked"),
+        searched=evals, notes=[], exhaustive=True)
+
+
+ENGINES["tables"] = tables_engine
+
+
 def run_engines(prop, conf, tier, seed, broken_gate=False):
     total = dict(evaluations=0, distinct_nontrivial=0, rule="", samples=[], findings=[], mismatches=[],
                  distribution={}, correspondence={}, searched=0, notes=[])
@@ -215,6 +327,8 @@ def run_engines(prop, conf, tier, seed, broken_gate=False):
         total["correspondence"][name] = r.get("correspondence", {})
         total["searched"] += r.get("searched", 0)
         total["notes"] += r.get("notes", [])
+        if r.get("exhaustive"):
+            total["exhaustive"] = True
     total["rule"] = " ; ".join(rules)
     return total
 
